@@ -429,7 +429,13 @@ def setPh (s : St) (i : Nat) (q : Phase) : St := { s with ph := s.ph.set i q }
 
 /-- One observable event. Silent steps are scheduled canonically: main spawns as late as
     possible, a worker stores right before its `done` line and releases right after it, main
-    performs its `L` closing sends right before returning. -/
+    performs its `L` closing sends right before returning.
+
+    Why this loses no behaviour (completeness, argued here, not proved — only soundness
+    `stepEv_sound` is needed for the theorems to apply to an accepted trace): in any execution with
+    the same observable trace, at every point the canonical run has spawned no more and released no
+    fewer workers, so its channel occupancy is ≤ the real one; a spawn or closing send that was
+    enabled in the real run is therefore still enabled when the canonical run performs it later. -/
 def stepEv (k L : Nat) (s : St) : Event → Option St
   | .start i =>
     if i < k then
